@@ -19,8 +19,8 @@ import numpy as np
 import xgi
 from xgi.exception import XGIError
 
-from ..core import TRUSTED_COMMON, VERIF, build_and_audit, dec_id, enc_id, finish, jhash
-from ..fn import all_small_hypergraphs, approx_equal, conclude, gen_hypergraph, run_fn
+from ..core import TRUSTED_COMMON, VERIF, build_and_audit, dec_id, enc_id, finish, jhash, load_known
+from ..fn import all_small_hypergraphs, approx_equal, gen_hypergraph, run_fn
 
 ORDERS = [None, 0, 1, 2, 3]
 TOL = 1e-9
@@ -726,13 +726,45 @@ def shrink_violations(ctx):
                 pass
 
 
+def conclude12(ctx, ok, dis):
+    """verdict logic of DESIGN 4.3; known findings do not count as the explanation of a broken obligation or of a
+    disagreement: for every function on which model and implementation differ (or for all, if the build/audit broke)
+    without a concrete violation that is not a known finding, search harder, then report `unproven`"""
+    known = {(k["site"], k["failure_class"]) for k in load_known() if k["property"] == ctx.prop}
+
+    def explained(site=None):
+        return any(v["kind"] == "concrete" and (v["site"], v["failure_class"]) not in known and (site is None or v["site"] == site)
+                   for v in ctx.violations)
+
+    sites = sorted({str(c.get("f")) for c, _, _ in dis})
+    open_sites = [f for f in sites if not explained(f)]
+    if (not ok and not explained()) or open_sites:
+        rng = ctx.rng
+        more = []
+        for _ in range(ctx.n(150, 1500)):
+            more += grid(rng, random_network(rng), full=True)
+        more = [c for _, c in zip(range(10 ** 9), more) if not open_sites or c["f"] in open_sites]
+        more = [c for c, _, _ in dis] + more
+        for c in more:
+            r = impl(c)
+            for cls, detail in pred(c, r):
+                ctx.violation(c["f"], cls, c, detail=detail)
+        ctx.stats["targeted_search_cases"] = len(more)
+        still = [f for f in open_sites if not explained(f)]
+        if still or (not ok and not explained()):
+            ctx.violation("model-tie", "unproven", {"broken": ctx.broken, "functions": still,
+                                                    "example": ctx.extra.get("disagreements", [])[:1]},
+                          detail="; ".join(ctx.broken)[:500], kind="unproven", broken=ctx.broken)
+
+
 def replay(ctx, path):
     j = json.load(open(path))
     c = j["case"] if "case" in j else j
     _CTX[0] = ctx
-    build_and_audit(ctx, "XgiModel.Props.C12", ["XgiModel.C12.Drive"])
+    ok = build_and_audit(ctx, "XgiModel.Props.C12", ["XgiModel.C12.Drive"])
     dis = run_fn(ctx, "C12", [c], impl, pred=pred, compare=compare, nontrivial=nontrivial)
-    if dis and not ctx.violations:
+    known = {(k["site"], k["failure_class"]) for k in load_known() if k["property"] == ctx.prop}
+    if (dis or not ok) and not any((v["site"], v["failure_class"]) not in known for v in ctx.violations):
         ctx.violation("model-tie", "unproven", {"broken": ctx.broken, "example": ctx.extra.get("disagreements", [])[:1]},
                       detail="; ".join(ctx.broken)[:500], kind="unproven", broken=ctx.broken)
     return finish(ctx, trusted_base=TRUSTED)
@@ -773,18 +805,7 @@ def run(ctx):
     for i in range(0, len(cases), 20000):
         dis += run_fn(ctx, "C12", cases[i:i + 20000], impl, pred=pred, compare=compare, nontrivial=nontrivial)
 
-    def search():
-        more = []
-        for _ in range(ctx.n(150, 1500)):
-            more += grid(rng, random_network(rng), full=True)
-        fs = {str(c.get("f")) for c, _, _ in dis}
-        more = [c for c in more if not fs or c["f"] in fs]
-        for c in more:
-            r = impl(c)
-            for cls, detail in pred(c, r):
-                ctx.violation(c["f"], cls, c, detail=detail)
-
-    conclude(ctx, ok, dis, search)
+    conclude12(ctx, ok, dis)
     shrink_violations(ctx)
     ctx.assumptions = [
         "labels int/str (bool/float IDs outside the model); networks satisfy Net.WF (what the views of a consistent Hypergraph show, C01)",
